@@ -17,12 +17,34 @@ def render(prog, rng, lang="CPP"):
     n = 0
     stack = []
     last = None
-    for k in prog:
+    # headers whose block is followed by 'else' must be an 'if'
+    if_needed = set()
+    opens = []
+    hdr_of = {}
+    for idx, k in enumerate(prog):
+        if k in ("open", "cbopen"):
+            opens.append(idx)
+        elif k == "close":
+            o = opens.pop()
+            if idx + 1 < len(prog) and prog[idx + 1] == "elseh":
+                if_needed.add(o - 1)
+    for idx, k in enumerate(prog):
         n += 1
         if k == "func":
             t = "void f%d(int a)" % n
         elif k == "hdr":
-            t = ["if (a > %d)", "while (a < %d)", "for (a = 0; a < %d; a++)", "else if (a == %d)"][n % 3] % n
+            # an 'if' when an else follows its block, otherwise if / while / for in turn
+            t = ["if (a > %d)", "while (a < %d)", "for (a = 0; a < %d; a++)"][0 if idx in if_needed else n % 3] % n
+        elif k == "elseh":
+            t = "else"
+        elif k == "doh":
+            t = "do"
+        elif k == "dowhile":
+            t = "while (a < %d);" % n
+        elif k == "tryh":
+            t = "try"
+        elif k == "catchh":
+            t = "catch (int e%d)" % n
         elif k == "switch":
             t = "switch (a + %d)" % n
         elif k == "ns":
@@ -31,12 +53,18 @@ def render(prog, rng, lang="CPP"):
             t = "class S%d" % n
         elif k == "ext":
             t = 'extern "C"'
+        elif k == "enumh":
+            t = "enum E%d" % n
+        elif k == "enumr":
+            t = "V%d," % n
+        elif k == "acc":
+            t = ["public:", "private:", "protected:"][n % 3]
         elif k in ("open", "cbopen"):
             t = "{"
             stack.append("cb" if k == "cbopen" else last)
         elif k == "close":
             fk = stack.pop()
-            t = "};" if fk == "cls" else "}"
+            t = "};" if fk in ("cls", "enumh") else "}"
         elif k == "stmt":
             top = stack[-1] if stack else "file"
             t = ("int m%d;" % n) if top == "cls" else (["a = a + %d;", "g(a, %d);", "a += %d;"][n % 3] % n)
@@ -69,8 +97,9 @@ def columns(text, tab):
 
 def _job(a):
     unc, tmp, i, prog, o, extra, seed = a
-    cfgt = ("indent_columns=%d\nindent_namespace=%s\nindent_class=%s\nindent_extern=%s\nindent_switch_case=%d\nindent_braces=%s\nindent_brace=%d\n" % (
-        o["ic"], str(o["ns"]).lower(), str(o["cls"]).lower(), str(o["ext"]).lower(), o["sc"], str(o["br"]).lower(), o["ib"])) + extra["text"]
+    cfgt = ("indent_columns=%d\nindent_namespace=%s\nindent_class=%s\nindent_extern=%s\nindent_switch_case=%d\nindent_braces=%s\nindent_brace=%d\n"
+            "indent_access_spec=%d\n" % (
+        o["ic"], str(o["ns"]).lower(), str(o["cls"]).lower(), str(o["ext"]).lower(), o["sc"], str(o["br"]).lower(), o["ib"], o["as"])) + extra["text"]
     cfg = os.path.join(tmp, "i%d.cfg" % i)
     obs.write(cfg, cfgt)
     cs = []
@@ -128,12 +157,12 @@ def run(ctx):
     jobs = []
     if quick:
         ctx.rng.shuffle(progs)
-        progs = sorted(progs[:260], key=len)
+        progs = sorted(progs[:420], key=len)
     for i, p in enumerate(progs):
         for rep in range(2 if quick else 3):
             ic = ctx.rng.choice([1, 2, 3, 4, 4, 8, 5])
             o = {"ic": ic, "ns": ctx.rng.random() < 0.4, "cls": ctx.rng.random() < 0.4, "ext": ctx.rng.random() < 0.4,
-                 "sc": ctx.rng.choice([0, 0, ic]), "br": ctx.rng.random() < 0.2, "ib": 0}
+                 "sc": ctx.rng.choice([0, 0, ic]), "br": ctx.rng.random() < 0.2, "ib": 0, "as": ctx.rng.choice([1, 1, 0, -ic, 3])}
             if not o["br"] and ctx.rng.random() < 0.3:
                 o["ib"] = ctx.rng.choice([1, 2, 3])
             iwt = ctx.rng.choice([0, 1, 2])
